@@ -76,10 +76,14 @@ class CaseNode(Node):
     def render_to_output(self, context: RenderContext, buffer: TextIO) -> int:
         """Render the node to the output buffer."""
         count = 0
+        matched = False
         for when in self.whens:
-            count += when.render(context, buffer)
+            if when.expression.evaluate(context):
+                matched = True
+                count += when.block.render(context, buffer)
 
-        if not count and self.default is not None:
+        # `else` is for when nothing matched, not for when nothing was written.
+        if not matched and self.default is not None:
             count += self.default.render(context, buffer)
 
         return count
@@ -89,10 +93,14 @@ class CaseNode(Node):
     ) -> int:
         """Render the node to the output buffer."""
         count = 0
+        matched = False
         for when in self.whens:
-            count += await when.render_async(context, buffer)
+            if await when.expression.evaluate_async(context):
+                matched = True
+                count += await when.block.render_async(context, buffer)
 
-        if not count and self.default is not None:
+        # `else` is for when nothing matched, not for when nothing was written.
+        if not matched and self.default is not None:
             count += await self.default.render_async(context, buffer)
 
         return count
